@@ -172,6 +172,34 @@ func (s *RecSink) Write(p []byte) (int, error) {
 	return s.Buf.Write(p)
 }
 
+// dataEOFSource returns its last bytes together with io.EOF and is nothing but an io.Reader.
+type dataEOFSource struct {
+	data []byte
+	pos  int
+}
+
+func (s *dataEOFSource) Read(p []byte) (int, error) {
+	if s.pos >= len(s.data) {
+		return 0, io.EOF
+	}
+	n := copy(p, s.data[s.pos:])
+	s.pos += n
+	if s.pos == len(s.data) {
+		return n, io.EOF
+	}
+	return n, nil
+}
+
+// writeVia hands p to w either with one Write call or through io.Copy from a source that
+// reports io.EOF together with its last bytes (io.Copy uses w.ReadFrom if w has one).
+func writeVia(w io.Writer, p []byte, viaCopy bool) (int, error) {
+	if !viaCopy || len(p) == 0 {
+		return w.Write(p)
+	}
+	n, err := io.Copy(w, &dataEOFSource{data: p})
+	return int(n), err
+}
+
 // readAllSafe drives a reader to its end with the given buffer size,
 // recovering panics. It returns the bytes, the final error (nil = clean
 // io.EOF) and whether a panic occurred.
